@@ -84,6 +84,38 @@ def c06(tier, args):
                                   assumptions=QSBR_ASSUMPTIONS)
 
 
+@check("C07")
+def c07(tier, args):
+    scs = _filter(scenarios.lock(tier), args)
+    return engine_a.run_scenarios(
+        "C07", tier, scs, _deadline(args, 600, 3000, tier),
+        rule="every interleaving (every atomic access of optimistic_lock and of the protected words a scheduling point) of 2 "
+             "threads running one or two lock programs each (read section with and without intermediate check, write, "
+             "write-and-obsolete, read-then-upgrade, rehydrate) on ONE real lock guarding two words: unbounded search made finite "
+             "by state fingerprints (closure mode); 3 threads: bound 3 (quick) / closure mode (thorough); non-trivial = distinct "
+             "event logs in which a read section overlapped a writer",
+        assumptions=["sequentially consistent interleavings (the statement says so); the acquire-fence argument is not model-checked",
+                     "closure mode: two executions with equal fingerprints (lock word, protected words, monitor state, per-thread "
+                     "declared position/saved version/values read, observations since the declaration, scheduler bookkeeping) have "
+                     "equal futures; 64-bit hash collisions are neglected",
+                     "monitors: open/dirty flags per thread, active-writer count, obsolete flag sampled at call invocation"])
+
+
+@check("C13")
+def c13(tier, args):
+    scs = _filter(scenarios.mutex(tier), args)
+    return engine_a.run_scenarios(
+        "C13", tier, scs, _deadline(args, 600, 3000, tier),
+        rule="every interleaving, without bound, of 2-3 plain threads running programs over {get, get-and-hold-the-handle, insert, "
+             "remove, empty, clear, scan} on the real mutex_db; the scheduling points are the acquisition and release of the "
+             "index mutex (pthread_mutex_lock/unlock defined in the runner), a requester of a held mutex is disabled until its "
+             "release; non-trivial = distinct result histories in which operations of two threads overlapped",
+        assumptions=["the unsynchronised db underneath has no scheduling points: a missing lock cannot show as a wrong result under "
+                     "a serialising scheduler, it is caught by the monitors 'each public call acquires the mutex exactly once' and "
+                     "'no allocation or free without holding the mutex'",
+                     "uint64 keys {1, 2}; programs of at most 3 operations; no sanitizer in this runner"])
+
+
 # ---------------------------------------------------------------------------
 # engine B: explicit-state search over the real index
 def seqmc_crash(assertions):
@@ -335,6 +367,8 @@ def setup():
     """build every runner once for the current tree (content-keyed cache)"""
     engine_a.olc_binary(True)
     engine_a.qsbr_binary(True)
+    engine_a.lock_binary(True)
+    engine_a.mutex_binary()
     codec_binary()
     build(**wrap_spec(True))
     build(**wrap_spec(False))
@@ -347,7 +381,7 @@ def setup():
 def replay(path):
     payload = json.load(open(path))
     eng = payload.get("engine", "")
-    if eng in ("sched/olc", "sched/qsbr"):
+    if eng.startswith("sched/"):
         import tempfile
         binary = engine_a.binary_for(payload["scenario"])
         tmp = tempfile.mkdtemp(prefix="verif-replay-")
